@@ -169,9 +169,10 @@ class CSSImportRule(cssrule.CSSRule):
             def _ident(expected, seq, token, tokenizer=None):
                 # medialist ending with ; which is checked upon too
                 if expected.startswith('media'):
+                    # the found token is the first one (a "(" is counted)
                     mediatokens = self._tokensupto2(
-                        tokenizer, importmediaqueryendonly=True)
-                    mediatokens.insert(0, token)  # push found token
+                        tokenizer, starttoken=token,
+                        importmediaqueryendonly=True)
 
                     last = mediatokens.pop()  # retrieve ;
                     lastval, lasttyp = self._tokenvalue(last), self._type(last)
@@ -206,6 +207,10 @@ class CSSImportRule(cssrule.CSSRule):
                 val = self._tokenvalue(token)
                 if expected.endswith(';') and ';' == val:
                     return 'EOF'
+                elif '(' == val and expected.startswith('media'):
+                    # a media query may start with an expression:
+                    # @import "x" (min-width: 10px);
+                    return _ident(expected, seq, token, tokenizer)
                 else:
                     new['wellformed'] = False
                     self._log.error(
